@@ -45,10 +45,29 @@ class VariableCacheProvider:
 
     __cache: Dict[str, str]
 
-    def __init__(self):
-        """Create new cache."""
+    def __init__(self, previous: 'VariableCacheProvider' = None):
+        """
+        Create new cache.
+
+        :param previous: the cache whose ids are taken already (the new ids, and the size, go on from there)
+        """
         self.__cache = {}
         self.__pinned = []
+        # keeping the previous cache keeps the values it has pinned: their ids stay theirs until the snapshot is done
+        self.__previous = previous
+        self.__used = previous.size if previous is not None else 0
+
+    def continued(self) -> 'VariableCacheProvider':
+        """
+        Create a cache that goes on with the ids of this one, but knows none of its values.
+
+        A deferred snapshot records the frame when the function is entered and the returned value when it ends. In
+        between the application runs: a value that was recorded at entry can have changed, and must be recorded as
+        it is now, not referred to as it was.
+
+        :return: the new cache
+        """
+        return VariableCacheProvider(self)
 
     def pin(self, value):
         """
@@ -75,7 +94,7 @@ class VariableCacheProvider:
     @property
     def size(self):
         """The number of variables we have cached."""
-        return len(self.__cache)
+        return self.__used + len(self.__cache)
 
     def new_var_id(self, identity_hash_id):
         """
